@@ -25,9 +25,62 @@ class Self:
         self.d = {}
 
 
+class FuncRef:
+    """a module-level function of the repository as a value (e.g. `target=run_case`)"""
+    def __init__(self, ex, fn):
+        self.ex, self.fn = ex, fn
+
+    def __call__(self, *args, **kwargs):
+        return TinyExec(self.ex.repo, self.ex.cls, self.ex.path, self.ex.depth + 1, self.ex.stubs).call_function(self.fn, list(args), kwargs)
+
+
+class Fake:
+    """marker base class: objects supplied by a rule whose attributes and methods the evaluated code may use"""
+
+
 class TinyExec:
-    def __init__(self, repo, cls, path, depth=0):
+    def __init__(self, repo, cls, path, depth=0, stubs=None):
         self.repo, self.cls, self.path, self.depth = repo, cls, path, depth
+        self.stubs = stubs or {}
+
+    def _modfunc(self, name):
+        return self.repo.funcs.get(self.path, {}).get(name) if self.path else None
+
+    def call_function(self, fn, args, kwargs, selfobj=None):
+        """call a module-level function node with Python values (positional, keyword, keyword-only, **kwargs supported)"""
+        a = fn.args
+        if a.vararg or a.posonlyargs:
+            raise Unsupported("signature of %s" % fn.name)
+        names = [x.arg for x in a.args]
+        env = {}
+        if len(args) > len(names):
+            raise Unsupported("too many positional arguments for %s" % fn.name)
+        for p, v in zip(names, args):
+            env[p] = v
+        extra = {}
+        kwnames = names + [x.arg for x in a.kwonlyargs]
+        for k, v in kwargs.items():
+            if k in kwnames:
+                env[k] = v
+            elif a.kwarg:
+                extra[k] = v
+            else:
+                raise Unsupported("unexpected keyword %s for %s" % (k, fn.name))
+        defaults = dict(zip(names[len(names) - len(a.defaults):], a.defaults))
+        defaults.update({x.arg: d for x, d in zip(a.kwonlyargs, a.kw_defaults) if d is not None})
+        for p in kwnames:
+            if p not in env:
+                if p in defaults:
+                    env[p] = self.ev(defaults[p], {}, selfobj)
+                else:
+                    raise Unsupported("missing argument %s" % p)
+        if a.kwarg:
+            env[a.kwarg.arg] = extra
+        try:
+            self.run(fn.body, env, selfobj)
+        except _Return as r:
+            return r.v
+        return None
 
     def call(self, meth, selfobj, *args, **kwargs):
         ci, fn = self.repo.method(self.cls, meth, self.path)
@@ -67,6 +120,14 @@ class TinyExec:
                         env[t.id] = v
                     elif isinstance(t, ast.Subscript) and dotted(t.value) == "self.__dict__":
                         so.d[self.ev(t.slice, env, so)] = v
+                    elif isinstance(t, ast.Subscript) and isinstance(t.value, ast.Name) and isinstance(env.get(t.value.id), (dict, list)):
+                        env[t.value.id][self.ev(t.slice, env, so)] = v
+                    elif isinstance(t, ast.Tuple) and all(isinstance(e, ast.Name) for e in t.elts):
+                        vv = tuple(v)
+                        if len(vv) != len(t.elts):
+                            raise Unsupported("unpack arity")
+                        for e, x_ in zip(t.elts, vv):
+                            env[e.id] = x_
                     else:
                         raise Unsupported("assignment target %s" % ast.unparse(t))
             elif isinstance(st, ast.Return):
@@ -83,10 +144,19 @@ class TinyExec:
                 env[st.target.id] = new
             elif isinstance(st, ast.For):
                 for item in self.ev(st.iter, env, so):
-                    if not isinstance(st.target, ast.Name):
+                    if isinstance(st.target, ast.Name):
+                        env[st.target.id] = item
+                    elif isinstance(st.target, ast.Tuple) and all(isinstance(e, ast.Name) for e in st.target.elts):
+                        item = tuple(item)
+                        if len(item) != len(st.target.elts):
+                            raise Unsupported("for target arity")
+                        for e, v_ in zip(st.target.elts, item):
+                            env[e.id] = v_
+                    else:
                         raise Unsupported("for target")
-                    env[st.target.id] = item
                     self.run(st.body, env, so)
+            elif isinstance(st, (ast.Import, ast.ImportFrom)):
+                raise Unsupported("import inside evaluated code")
             elif isinstance(st, ast.Try):
                 try:
                     self.run(st.body, env, so)
@@ -126,18 +196,46 @@ class TinyExec:
                 return TYPES[n.id]
             if n.id in ("True", "False", "None"):
                 return {"True": True, "False": False, "None": None}[n.id]
+            if n.id in self.stubs:
+                return self.stubs[n.id]
+            if self._modfunc(n.id) is not None:
+                return FuncRef(self, self._modfunc(n.id))
             raise Unsupported("unbound %s" % n.id)
         if isinstance(n, ast.Tuple):
             return tuple(self.ev(e, env, so) for e in n.elts)
         if isinstance(n, ast.JoinedStr):
             return ""
         if isinstance(n, ast.Attribute):
+            if (dotted(n) or "") in self.stubs:
+                return self.stubs[dotted(n)]
             base = self.ev(n.value, env, so)
-            if hasattr(base, n.attr) and not callable(getattr(base, n.attr)):
+            if hasattr(base, n.attr) and (not callable(getattr(base, n.attr)) or isinstance(base, Fake)):
                 return getattr(base, n.attr)
             raise Unsupported("attribute %s" % n.attr)
-        if isinstance(n, ast.BinOp) and isinstance(n.op, (ast.Add, ast.Sub, ast.Mult)):
+        if isinstance(n, ast.ListComp) and len(n.generators) == 1 and isinstance(n.generators[0].target, ast.Name):
+            g = n.generators[0]
+            out = []
+            for item in self.ev(g.iter, env, so):
+                e2 = dict(env)
+                e2[g.target.id] = item
+                if all(self.ev(c, e2, so) for c in g.ifs):
+                    out.append(self.ev(n.elt, e2, so))
+            return out
+        if isinstance(n, ast.Subscript):
+            base = self.ev(n.value, env, so)
+            if isinstance(base, (list, tuple, dict, str)) and not isinstance(n.slice, ast.Slice):
+                return base[self.ev(n.slice, env, so)]
+            raise Unsupported("subscript")
+        if isinstance(n, ast.Dict) and all(k is not None for k in n.keys):
+            return {self.ev(k, env, so): self.ev(v, env, so) for k, v in zip(n.keys, n.values)}
+        if isinstance(n, ast.List):
+            return [self.ev(e, env, so) for e in n.elts]
+        if isinstance(n, ast.BinOp) and isinstance(n.op, (ast.Add, ast.Sub, ast.Mult, ast.Mod)):
             a_, b_ = self.ev(n.left, env, so), self.ev(n.right, env, so)
+            if isinstance(n.op, ast.Mod):
+                if isinstance(a_, str):
+                    return ""
+                return a_ % b_
             return a_ + b_ if isinstance(n.op, ast.Add) else a_ - b_ if isinstance(n.op, ast.Sub) else a_ * b_
         if isinstance(n, ast.UnaryOp) and isinstance(n.op, ast.Not):
             return not self.ev(n.operand, env, so)
@@ -162,16 +260,40 @@ class TinyExec:
             return self.ev(n.body, env, so) if self.ev(n.test, env, so) else self.ev(n.orelse, env, so)
         if isinstance(n, ast.Call):
             d = dotted(n.func) or ""
+            if any(isinstance(a, ast.Starred) for a in n.args):
+                raise Unsupported("starred argument")
             args = [self.ev(a, env, so) for a in n.args]
+            kwargs = {}
+            for k in n.keywords:
+                if k.arg is None:
+                    kwargs.update(self.ev(k.value, env, so))
+                else:
+                    kwargs[k.arg] = self.ev(k.value, env, so)
+            if d in self.stubs:
+                return self.stubs[d](*args, **kwargs)
             if d in SAFE:
-                return SAFE[d](*args)
+                return SAFE[d](*args, **kwargs)
+            if d == "enumerate":
+                return list(enumerate(*args))
+            if isinstance(n.func, ast.Name) and self._modfunc(d) is not None and d not in env:
+                if self.depth > 4:
+                    raise Unsupported("call depth")
+                return TinyExec(self.repo, self.cls, self.path, self.depth + 1, self.stubs).call_function(self._modfunc(d), args, kwargs)
+            if isinstance(n.func, ast.Attribute):
+                base0 = self.ev(n.func.value, env, so) if not isinstance(n.func.value, ast.Name) or n.func.value.id in env else None
+                if isinstance(base0, Fake) and callable(getattr(base0, n.func.attr, None)):
+                    return getattr(base0, n.func.attr)(*args, **kwargs)
+                if isinstance(base0, list) and n.func.attr in ("append", "extend", "index", "count"):
+                    return getattr(base0, n.func.attr)(*args)
+                if isinstance(base0, dict) and n.func.attr in ("get", "keys", "values", "items"):
+                    return getattr(base0, n.func.attr)(*args)
             parts = d.split(".")
             if len(parts) == 2 and parts[0] in ("self", "cls", self.cls) and self.repo.has_method(self.cls, parts[1], self.path):
                 if self.depth > 4:
                     raise Unsupported("call depth")
-                return TinyExec(self.repo, self.cls, self.path, self.depth + 1).call(parts[1], so, *args)
+                return TinyExec(self.repo, self.cls, self.path, self.depth + 1, self.stubs).call(parts[1], so, *args)
             if isinstance(n.func, ast.Attribute) and n.func.attr in ("strip", "lower", "upper", "isdigit", "lstrip", "rstrip", "startswith",
-                                                                    "endswith", "replace", "isnumeric"):
+                                                                    "endswith", "replace", "isnumeric", "join", "format"):
                 base = self.ev(n.func.value, env, so)
                 if isinstance(base, str):
                     return getattr(base, n.func.attr)(*args)
